@@ -3,6 +3,8 @@ package checks
 import (
 	"encoding/base64"
 	"fmt"
+	"os"
+	"path/filepath"
 	"sort"
 	"strings"
 	"unicode/utf8"
@@ -58,11 +60,15 @@ func init() {
 	core.Register(&core.Check{
 		ID:    "C20",
 		Level: "exploration",
-		Rule: "(seal) texts of 20 classes (empty, ASCII, multi-byte, newlines, YAML-special, NUL, invalid UTF-8, up to 4 KiB) x 4 fresh key pairs (1024 and 2048 bit) + the embedded public key: round trip, then for each sealed value every single byte position of the raw envelope x {+1, ^0x80, 0x00, 0xFF} (sampled to 400 positions for long values), every truncation length (sampled), single-character substitutions and deletions in the base64 text, appended bytes, swapped halves, a sealed value of another text under the same key, the right text under another key; QuestionModel.Seal/Unseal of a text question whose answer is each text with leading/trailing blanks, newlines, tabs, NBSP and ideographic space. (verify) exhaustive grid: n = 2..5 choices x every assignment of outputs {matches, differs, differs by a trailing space} x every subset of marked letters incl. a letter beyond n and malformed markings x {single-choice, multiple-choice}, choices as inline code, text blocks and evy code blocks that are really executed. distinct = distinct (text class, key, tampering) / question cells",
+		Rule: "(seal) texts of 20 classes (empty, ASCII, multi-byte, newlines, YAML-special, NUL, invalid UTF-8, up to 4 KiB) x 4 fresh key pairs (1024 and 2048 bit) + the embedded public key: round trip, then for each sealed value every single byte position of the raw envelope x {+1, ^0x80, 0x00, 0xFF} (sampled to 400 positions for long values), every truncation length (sampled), single-character substitutions and deletions in the base64 text, appended bytes, swapped halves, a sealed value of another text under the same key, the right text under another key; QuestionModel.Seal/Unseal of a text question whose answer is each text with leading/trailing blanks, newlines, tabs, NBSP and ideographic space. (verify) exhaustive grid: n = 2..5 choices x every assignment of outputs {matches, differs, differs by a trailing space} x every subset of marked letters incl. a letter beyond n and malformed markings x {single-choice, multiple-choice}, choices as inline code, text blocks and evy code blocks that are really executed; plus exercises whose text and image questions share program texts (print and draw), verified in random order in one process. distinct = distinct (text class, key, tampering) / question cells",
 		Assumptions: []string{"closed-form oracle: a tampered or foreign-key value may be rejected or still yield the original, never another text; Verify accepts iff the marking is well formed and {marked} == {choices whose output equals the question's output}"},
 		NumCases: func(tier string) int {
 			seal := len(c20Texts) * 5
-			return seal + (c20VerifyCells()+c20VerifyBlock-1)/c20VerifyBlock
+			mixed := 12
+			if tier == "thorough" {
+				mixed = 300
+			}
+			return seal + (c20VerifyCells()+c20VerifyBlock-1)/c20VerifyBlock + mixed
 		},
 		Exhaustive: func(tier string) bool { return true },
 		Setup: func(c *core.Ctx) error {
@@ -89,7 +95,96 @@ func c20Run(c *core.Ctx, i int) {
 		c20Seal(c, st, c20Texts[i/5], i%5)
 		return
 	}
+	if blocks := (c20VerifyCells() + c20VerifyBlock - 1) / c20VerifyBlock; i-nSeal >= blocks {
+		c20Mixed(c, i-nSeal-blocks)
+		return
+	}
 	c20Verify(c, (i-nSeal)*c20VerifyBlock)
+}
+
+// c20Mixed: questions of one exercise that share program texts but are judged by different kinds of
+// output (printed text vs picture), verified one after the other in one process, in random order and
+// twice: the verdict of each depends only on what its own programs print / draw.
+func c20Mixed(c *core.Ctx, n int) {
+	r := c.Rng
+	dir := filepath.Join(c.Tmp, fmt.Sprintf("c20mixed-%d", n), "course", "unit", "exercise")
+	defer os.RemoveAll(filepath.Join(c.Tmp, fmt.Sprintf("c20mixed-%d", n)))
+	write := func(name, content string) {
+		_ = os.MkdirAll(filepath.Dir(name), 0o755)
+		_ = os.WriteFile(name, []byte(content), 0o644)
+	}
+	R := 5 + r.Intn(20)
+	R2 := R + 1 + r.Intn(5)
+	word := []string{"dot", "spot", "o"}[r.Intn(3)]
+	draw := func(rad int) string { return fmt.Sprintf("move 50 50\ncolor \"red\"\ncircle %d\n", rad) }
+	progBig := "print \"" + word + "\"\n" + draw(R)                                          // prints word, draws R
+	progBig2 := fmt.Sprintf("move 50 50\ncolor \"red\"\nprint \"%s\"\ncircle %d\n", word, R) // same text, same picture, other source
+	progSmall := "print \"" + word + "\"\n" + draw(R2)                                       // same text, other picture
+	progOther := "print \"other\"\n" + draw(R)                                              // other text, same picture
+	fence := func(src string) string {
+		return "- ```evy\n  " + strings.ReplaceAll(strings.TrimSuffix(src, "\n"), "\n", "\n  ") + "\n  ```\n"
+	}
+	head := func(atype, answer string) string {
+		return "---\ntype: question\ndifficulty: easy\nanswer-type: " + atype + "\nanswer: \"" + answer + "\"\n---\n\n"
+	}
+	write(filepath.Join(dir, "img", "big.evy"), draw(R))
+	write(filepath.Join(dir, "img", "tiny.evy"), "move 10 10\ncircle 1\n")
+	type q struct {
+		name, md string
+		ok       bool
+		why      string
+	}
+	textQ := func(name, marked string, ok bool) q {
+		// which programs print the word? big, small, big2 do; other does not
+		return q{name, head("multiple-choice", marked) + "# T\n\nWhich programs print this?\n\n```\n" + word + "\n```\n\n" + fence(progBig) + fence(progSmall) + fence(progBig2) + fence(progOther), ok,
+			"text question: a, b, c print the text, d prints another text; marked " + marked}
+	}
+	imgQ := func(name, marked string, ok bool) q {
+		// which programs draw the picture of big.evy? big, big2, other do; small does not
+		return q{name, head("multiple-choice", marked) + "# I\n\nWhich programs draw this?\n\n![question](img/big.evy.svg)\n\n" + fence(progBig) + fence(progSmall) + fence(progBig2) + fence(progOther), ok,
+			"image question: a, c, d draw the picture, b draws another radius; marked " + marked}
+	}
+	img1 := func(name, marked string, ok bool) q {
+		return q{name, head("single-choice", marked) + "# S\n\nWhich program draws the same as this program?\n\n```evy\n" + progBig2 + "```\n\n" + fence(progSmall) + fence(progBig) + "- ![answer](img/tiny.evy.svg)\n", ok,
+			"image question with a program as question: only b draws the same; marked " + marked}
+	}
+	qs := []q{
+		textQ("t-right.md", "a, b, c", true), textQ("t-wrong.md", "a, c, d", false),
+		imgQ("i-right.md", "a, c, d", true), imgQ("i-wrong.md", "a, b, c", false), imgQ("i-wrong2.md", "a, b, c, d", false),
+		img1("s-right.md", "b", true), img1("s-wrong.md", "a", false),
+	}
+	order := r.Perm(len(qs))
+	order = append(order, r.Perm(len(qs))...)
+	for _, k := range order {
+		qu := qs[k]
+		fname := filepath.Join(dir, qu.name)
+		write(fname, qu.md)
+		var verr error
+		func() {
+			defer func() {
+				if p := recover(); p != nil {
+					verr = fmt.Errorf("panic: %v", p)
+					c.Violation("verify:crash", fmt.Sprintf("%s: %v", qu.why, p), qu.md, nil)
+				}
+			}()
+			m, err := learn.NewQuestionModel(fname)
+			if err != nil {
+				verr = err
+				return
+			}
+			verr = m.Verify()
+		}()
+		c.Event("mixed_questions_verified", 1)
+		c.Distinct(fmt.Sprintf("mixed|%d|%d|%s|%s", R, R2, word, qu.name))
+		if (verr == nil) != qu.ok {
+			kind := "accepts-wrong-marking"
+			if qu.ok {
+				kind = "rejects-right-marking"
+			}
+			c.Violation("verify:mixed:"+kind, fmt.Sprintf("%s: Verify accepted=%v (%v); questions of the exercise were verified in the order %v", qu.why, verr == nil, verr, order), qu.md, nil)
+			return
+		}
+	}
 }
 
 func c20Seal(c *core.Ctx, st *c20State, text string, ki int) {
@@ -223,7 +318,7 @@ func c20Seal(c *core.Ctx, st *c20State, text string, ki int) {
 	// question level: the answer of a question file sealed and unsealed through the model
 	if ki < 2 {
 		for _, t := range []string{text, " " + text, text + " ", text + "\n", "\t" + text + "\n\n", "\u00a0" + text + "\u3000", "\n" + text} {
-			c20ModelSeal(c, kp, t)
+			c20ModelSeal(c, kp, other, t)
 		}
 	}
 }
@@ -259,7 +354,7 @@ const c20TextQuestionMD = "## Understanding sequence: `print`\n\nComplete the pr
 
 // c20ModelSeal: QuestionModel.Seal then Unseal (and Decrypt of the stored sealed value) must give back
 // exactly the answer text the model held before sealing.
-func c20ModelSeal(c *core.Ctx, kp learn.KeyPair, text string) {
+func c20ModelSeal(c *core.Ctx, kp, other learn.KeyPair, text string) {
 	q := yamlQuote(text)
 	if q == "" || text == "" {
 		return
@@ -299,6 +394,31 @@ func c20ModelSeal(c *core.Ctx, kp learn.KeyPair, text string) {
 	}
 	if err := m.Unseal(); err != nil || m.Frontmatter.Answer != before || m.Frontmatter.SealedAnswer != "" {
 		c.Violation("seal:model-round-trip", fmt.Sprintf("%s: after Seal and Unseal the answer is %q (%v), before it was %q", desc, firstN(m.Frontmatter.Answer, 80), err, firstN(before, 80)), fm, nil)
+		return
+	}
+	// key rotation: the unsealed answer sealed again under ANOTHER key is readable with that key only
+	if err := m.Seal(other.Public); err != nil || m.Frontmatter.SealedAnswer == "" {
+		c.Violation("seal:model-reseal-error", fmt.Sprintf("%s: sealing the unsealed model under a second key failed: %v", desc, err), fm, nil)
+		return
+	}
+	c.Event("model_key_rotations", 1)
+	if got, err := learn.Decrypt(other.Private, m.Frontmatter.SealedAnswer); err != nil || got != before {
+		c.Violation("seal:model-key-rotation", fmt.Sprintf("%s: unsealed with key A and sealed with key B, the value decrypts with B's private key to %q (%v), expected %q", desc, firstN(got, 80), err, firstN(before, 80)), fm, nil)
+		return
+	}
+	if got, err := learn.Decrypt(kp.Private, m.Frontmatter.SealedAnswer); err == nil {
+		c.Violation("seal:model-key-rotation", fmt.Sprintf("%s: the value sealed under key B still decrypts with key A's private key (to %q)", desc, firstN(got, 80)), fm, nil)
+		return
+	}
+	// and sealing again under the first key after an edit of the answer seals the new text
+	m2, err := learn.NewQuestionModel("course/unit/exercise/q.md", learn.WithRawMD(fm, c20TextQuestionMD), learn.WithPrivateKey(kp.Private))
+	if err == nil && m2.Seal(kp.Public) == nil && m2.Unseal() == nil {
+		m2.Frontmatter.Answer = before + " edited"
+		if err := m2.Seal(kp.Public); err == nil {
+			if got, err := learn.Decrypt(kp.Private, m2.Frontmatter.SealedAnswer); err != nil || got != before+" edited" {
+				c.Violation("seal:model-reseal-after-edit", fmt.Sprintf("%s: answer edited after Unseal, sealed again: decrypts to %q (%v)", desc, firstN(got, 80), err), fm, nil)
+			}
+		}
 	}
 }
 
